@@ -35,6 +35,15 @@ def fixedThresholdX (rnd : Rat → Rat) (emb : List (List X)) (eps : X) (dim : N
     (xOps rnd).lt (D a b) eps &&
       !(mv && ((missingMaskX emb).getD a false || (missingMaskX emb).getD b false))
 
+/-- round 5: the same with an arbitrary structure of double operations (`xOpsO rnd`: with overflow
+of a finite difference to `inf`); `fixedThresholdX rnd = fixedThresholdOps (xOps rnd)` by `rfl` -/
+def fixedThresholdOps (O : FOps X) (emb : List (List X)) (eps : X) (dim : Nat) (mv : Bool) : Mat :=
+  let n := emb.length
+  let D := StructC08._supremum_distance_matrix_rp O n dim (accX emb)
+  Recurrence.tab n n fun a b =>
+    O.lt (D a b) eps &&
+      !(mv && ((missingMaskX emb).getD a false || (missingMaskX emb).getD b false))
+
 /-! ### bootstrap of a line histogram -/
 
 /-- `dist /= dist.sum()` read at C index `x` -/
